@@ -64,6 +64,7 @@ ClsOf(o)   == prog.obj[o].cls
 InvAll(o)  == prog.cls[ClsOf(o)].inv
 InvCall(o) == prog.cls[ClsOf(o)].oncall
 InvSet(o)  == prog.cls[ClsOf(o)].onset
+ReprFn(o)  == IF o = 0 THEN 0 ELSE prog.cls[ClsOf(o)].repr      \* the class's own __repr__ (0 = none)
 
 Frame(k, u, f, o, a, lvl, sub) ==
   [k |-> k, u |-> u, f |-> f, o |-> o, a |-> a, lvl |-> lvl, pc |-> "enter", sub |-> sub,
@@ -239,7 +240,7 @@ CondPhase(t, fr, ph, L, next) ==
                        /\ nx' = nx + 1
                        /\ Emit(Ev("cond.in", t, c, OOfPh(fr, ph), AOf(fr, ph), 0, "", OldOf(fr, ph), ResOf(fr, ph), "reeval", FALSE))
                        /\ Unch_ip /\ UNCHANGED <<prog, ost, status, ns>>
-                  ELSE ErrDone(t, fr, ph, ErrorOf(c))
+                  ELSE Goto(t, [fr EXCEPT !.sub = "repr"])
            [] CON(c).err = "inst" -> ErrDone(t, fr, ph, ErrorOf(c))
            [] CON(c).err \in {"factory", "badfactory"} ->
                 /\ PushOn(t, [fr EXCEPT !.sub = "fact"], UsrFrame("errf", c, OOfPh(fr, ph), AOf(fr, ph), RoleOf(ph), nx + 1, fr.f))
@@ -252,7 +253,21 @@ CondPhase(t, fr, ph, L, next) ==
            THEN IF r.cls = "Exception"
                   THEN Leave(t, fr, Raise("RuntimeError", fr.c))         \* "Failed to recompute", chained
                   ELSE Leave(t, fr, r)                                  \* BaseException passes through
+           ELSE Goto(t, [fr EXCEPT !.sub = "repr"])
+    [] fr.sub = "repr" ->
+         \* the message lists the values of the arguments: an instance is shown through its own __repr__
+         \* (user code, exempt from invariant checks)
+         IF OOfPh(fr, ph) # 0 /\ ReprFn(fr.o) # 0
+           THEN /\ PushOn(t, [fr EXCEPT !.sub = "reprwait"], UsrFrame("body", ReprFn(fr.o), fr.o, 0, "", nx + 1, ReprFn(fr.o)))
+                /\ reg' = [reg EXCEPT ![t] = NoOut]
+                /\ nx' = nx + 1
+                /\ Emit(Ev("body.in", t, ReprFn(fr.o), fr.o, 0, 0, "", <<>>, 0, "repr", FALSE))
+                /\ Unch_ip /\ UNCHANGED <<prog, ost, status, ns>>
            ELSE ErrDone(t, fr, ph, ErrorOf(fr.c))
+    [] fr.sub = "reprwait" ->
+         \* reprlib absorbs an Exception raised by __repr__; anything else passes through
+         IF r.k = "raise" /\ r.cls # "Exception" THEN Leave(t, fr, r)
+         ELSE ErrDone(t, fr, ph, ErrorOf(fr.c))
     [] fr.sub = "fact" ->
          IF r.k = "raise" THEN Leave(t, fr, r)
          ELSE IF r.v = 0 THEN Leave(t, fr, Raise("TypeError", fr.c))     \* the factory returned a non-exception
